@@ -611,7 +611,9 @@ def run(rep):
                 'zero-extent boxes; closed triangles (RingArray); multilines; all simple 3-4-vertex rings on '
                 '{2,4,6}^2 both windings as polygons x boxes on 0..8; shells with one hole (valid and '
                 'same-winding) x boxes on -1..9; multipolygons of 1-2 parts and a part inside a hole; a fixed '
-                'corpus of empty/missing elements; a seeded random stream with random derivations. A case is '
+                'corpus of empty/missing elements; every kind against boxes with corners on the half / quarter grid '
+                '(integer subtypes first; model side scaled by 4); a seeded random stream with random derivations; '
+                'near-tie configurations with coordinates up to 2^25 in float64/float32/int64/int32. A case is '
                 'non-trivial when some box separates the elements (some True and some False). '
                 'quick tier: every element of every family is run, against a seeded fraction (1/3 for polylines, '
                 '1/2 otherwise, times rep.scale) of its box batches; thorough tier: all batches. '
